@@ -49,6 +49,19 @@ Section Safety.
   Theorem queue_law_n tr ns q : nrun T F ntop P (ninit nq mx P) tr = Some ns ->
     pushed ns.(nh) q = ranq ns.(nh) q ++ (job_id <$> pend ns.(base) q).
   Proof. intros Hr. destruct (nreach_base T F ntop P nq mx tr ns Hr) as (tr' & Hr' & ->). by eapply (queue_law T F HT HI). Qed.
+
+  (* Desync::drop = sync(free): whoever issues it (also a body running inside a job of ANOTHER object) *)
+  Theorem drop_after_returned_n tr ns A D q ka : nrun T F ntop P (ninit nq mx P) tr = Some ns ->
+    Call A q ka ∈ ns.(nh) -> before (Ret A) (Call D q KSync) ns.(nh) ->
+    forall h3 h4, ns.(nh) = h3 ++ Run D q :: h4 -> Run A q ∈ h3.
+  Proof. intros Hr. destruct (nreach_base T F ntop P nq mx tr ns Hr) as (tr' & Hr' & ->). by eapply (drop_after_returned T F HT HI). Qed.
+
+  Theorem drop_runs_last_n tr ns D q h1 h2 : nrun T F ntop P (ninit nq mx P) tr = Some ns ->
+    ns.(nh) = h1 ++ Call D q KSync :: h2 ->
+    (forall B k, B <> D -> Call B q k ∈ ns.(nh) -> finished B h1) ->
+    forall h3 h4, ns.(nh) = h3 ++ Run D q :: h4 ->
+      (forall B, B <> D -> Push B q ∈ ns.(nh) -> Run B q ∈ h3) /\ (forall B, Run B q ∉ h4).
+  Proof. intros Hr. destruct (nreach_base T F ntop P nq mx tr ns Hr) as (tr' & Hr' & ->). by eapply (drop_runs_last T F HT HI). Qed.
 End Safety.
 
 Section Nested.
@@ -81,6 +94,17 @@ Section Nested.
         replace (ncallers (base ns) + (a - ncallers (base ns))) with a in Eap by lia. rewrite Ea in Eap. injection Eap as <-. by rewrite Est.
     - apply forallb_forall. intros qq Hin. apply elem_of_list_In, elem_of_list_lookup in Hin as [q Hq]. by destruct (Q2 q qq Hq) as [-> ->].
     - apply forallb_forall. intros th Hin. apply elem_of_list_In, elem_of_list_lookup in Hin as [t Ht]. destruct (Q3 t th Ht) as [-> _]. done.
+  Qed.
+
+  (* C10 with nesting: activations frozen inside a closure (B0) - and everything that is suspended or waits because of them -
+     do not stop the others *)
+  Theorem L_quiet_frozen_n tr ns B0 : nrun T F ntop P (ninit nq mx P) tr = Some ns ->
+    frozen_ok ns.(base) B0 -> nterminal_except T F ntop P B0 ns -> npool_free T F ns -> nquiet_except ntop P B0 ns.
+  Proof.
+    intros Hr HB0 Hterm Hfree.
+    pose proof (nreach_ninv T F HT HI nq mx ntop P HW tr ns Hr) as HNI.
+    pose proof (nreach_ok T F HK HT HI HF HN nq mx ntop P HW Hmx tr ns Hr) as HB.
+    exact (nfrozen_quiet T F nq ntop P HW B0 ns HNI HB Hterm HB0 Hfree).
   Qed.
 
   (* nothing is lost: in a state in which nobody can move every pushed operation has run, with its whole body *)
